@@ -18,6 +18,7 @@ import json
 import os
 import random
 import re
+import shutil
 
 import vcommon as v
 
@@ -272,8 +273,8 @@ def replay_cache(path):
 CPOINTS = ["cache_rd", "cache_wr", "cache_evlock", "between_ops"]
 
 
-def _cprog(init, threads, high=1 << 20, low=1 << 19, nkeys=4):
-    gens = [[g, k, 10 + g] for k in range(1, nkeys + 1) for g in (k * 10 + 1, k * 10 + 2)]
+def _cprog(init, threads, high=1 << 20, low=1 << 19, nkeys=6):
+    gens = [[g, k, 10 + g] for k in range(1, 5) for g in (k * 10 + 1, k * 10 + 2)]
     return {"cfg": {"cachemode": True, "high": high, "low": low, "nkeys": nkeys, "pers": False, "ttl": True, "lim": -1},
             "keys": ["k1"], "gens": gens, "init": init, "threads": threads, "points": CPOINTS}
 
@@ -297,15 +298,18 @@ def conc_family(rng, tier):
     # generation-qualified removal / lookup against a re-insert of the same key under another generation
     progs.append(("gen_swap", _cprog(tagged, [[R(1, 11), G(1, 11), G(1)], [I(1, 12, 80), G(1, 12)]])))
     progs.append(("gen_rm_other", _cprog(tagged, [[R(2, 21), G(2, 21)], [R(1, 11), I(1, 12, 70), G(1, 11)]])))
-    # sweeps (small watermarks: three 100-byte entries exceed `high`) against removals and lookups
-    small = dict(high=700, low=300)
-    progs.append(("evict_rm", _cprog(full[:3], [[E, G(1)], [R(3), G(3)]], **small)))
-    progs.append(("ins_sweep_rm", _cprog(full[:3], [[I(4), G(4)], [R(2), G(2)]], **small)))
-    progs.append(("evict_evict", _cprog(full[:3], [[E], [E, G(2)]], **small)))
-    progs.append(("touch_evict", _cprog(full[:3], [[G(1), G(2)], [E, G(1)]], **small)))
+    # sweeps against removals, insertions and lookups: small watermarks (an entry must stay below high/4 to be cached
+    # at all): five entries of ~190 bytes are 940 bytes, a sixth exceeds high = 1000 and sweeps down to low = 450
+    small = dict(high=1000, low=450, nkeys=6)
+    five = [I(1), I(2), I(3), I(4), I(5)]
+    progs.append(("evict_rm", _cprog(five, [[E, G(1)], [R(3), G(3)]], **small)))
+    progs.append(("ins_sweep_rm", _cprog(five, [[I(6), G(6)], [R(2), G(2)]], **small)))
+    progs.append(("ins_sweep_ins", _cprog(five, [[I(6), G(6)], [I(2, 0, 60), G(2)]], **small)))
+    progs.append(("evict_evict", _cprog(five, [[E], [E, G(2)]], **small)))
+    progs.append(("touch_evict", _cprog(five, [[G(1), G(2)], [E, G(1)]], **small)))
     if tier != "quick":
         for a in (1, 2, 3):
-            progs.append(("rm_ins_ev_%d" % a, _cprog(full[:3], [[R(a), G(a)], [I(4), G(4)], [E]], **small)))
+            progs.append(("rm_ins_ev_%d" % a, _cprog(five, [[R(a), G(a)], [I(6), G(6)], [E]], **small)))
     return progs
 
 
@@ -367,3 +371,127 @@ def run_cache_conc(tier, seed, rd, fxv):
         out["states"] += r.distinct
         out["transitions"] += r.generated
     return out
+
+
+# ------------------------------------------------------------------------------------------------------
+# CacheConc.tla: the concurrent design of the cache, every interleaving on the model, replayed on the real cache
+# ------------------------------------------------------------------------------------------------------
+ENTRY_OVERHEAD = 88      # size_of::<CacheEntry>() + key bytes, nominal: the programs keep 50 bytes of margin at every watermark test
+
+
+def _model_op(o):
+    name = {"c_ins": "ins", "c_get": "get", "c_rem": "rem", "c_evict": "evict"}[o["op"]]
+    return {"op": name, "k": o.get("k", 0), "g": o.get("g", 0), "sz": (o.get("vlen", 0) + ENTRY_OVERHEAD) if name == "ins" else 0}
+
+
+def _tla(x):
+    import scengine
+    return scengine.tla(x)
+
+
+def run_cache_model(tier, seed, rd, fxv, split_remove=False, emit_one_in=1, timeout=900):
+    """TLC over the family on CacheConc.tla; returns (TlcResult, behaviours, model programs, source programs)."""
+    fam = conc_family(random.Random(seed), tier)
+    mprogs, src = [], {}
+    for name, p in fam:
+        mprogs.append({"name": name, "init": [_model_op(o) for o in p["init"]], "high": p["cfg"]["high"], "low": p["cfg"]["low"],
+                       "threads": [[_model_op(o) for o in ops] for ops in p["threads"]]})
+        src[name] = p
+    sd = os.path.join(rd, "cachemodel" + ("_mut" if split_remove else ""))
+    os.makedirs(sd, exist_ok=True)
+    shutil.copy(os.path.join(v.SPEC, "CacheConc.tla"), sd)
+    with open(os.path.join(sd, "CCRun.tla"), "w") as fh:
+        fh.write("---- MODULE CCRun ----\n\\* generated by lib/checks/c16_cache.py\nEXTENDS CacheConc\nProgsLit == %s\n"
+                 "Gts == [g \\in 0 .. 60 |-> g]\n====\n" % _tla(mprogs))
+    with open(os.path.join(sd, "CCRun.cfg"), "w") as fh:
+        fh.write("CONSTANTS\n  Programs <- ProgsLit\n  GenTs <- Gts\n  SplitRemove = %s\n  EmitOneIn = %d\nSPECIFICATION Spec\n"
+                 "CHECK_DEADLOCK FALSE\nINVARIANTS MemExact UniqueKey NoFlags EvLockFree EmitBehaviour\n"
+                 % ("TRUE" if split_remove else "FALSE", emit_one_in))
+    r = v.run_tlc("CCRun", "CCRun.cfg", rd, workers=8, timeout=timeout, coverage=False, xmx="8g", spec_dir=sd)
+    beh = []
+    for line in r.out.splitlines():
+        if line.startswith('"{'):
+            try:
+                beh.append(json.loads(json.loads(line)))
+            except Exception:
+                pass
+    return r, beh, mprogs, src
+
+
+def cache_model_part(tier, seed, rd, fxv):
+    """Design invariants over every interleaving; the SplitRemove variant must fail; sampled behaviours replayed on
+    the real cache (arrivals at the lock points, hit / miss per lookup, the final bucket); the real executions are
+    judged by TraceCache.tla.  Returns (violations, info)."""
+    import scengine
+    viol = []
+    r, beh, mprogs, src = run_cache_model(tier, seed, rd, fxv, emit_one_in=8 if tier == "quick" else 1)
+    if r.timeout or (r.error and not r.violation):
+        raise v.ToolError("CacheConc model checking failed: %s %s" % (r.error, r.out[-500:]))
+    info = {"programs": len(mprogs), "model_states": r.distinct, "model_behaviours_emitted": len(beh), "design_violation": r.violation}
+    rm, _, _, _ = run_cache_model(tier, seed, rd, fxv, split_remove=True, emit_one_in=1000000, timeout=300)
+    if not rm.violation:
+        raise v.ToolError("CacheConc with SplitRemove = TRUE was accepted (the model is vacuous)")
+    if not beh:
+        raise v.ToolError("CacheConc produced no behaviour: " + r.out[-400:])
+    sel = scengine.sample(beh, 1500 if tier == "quick" else 20000, seed)
+    items = [(src[b["p"]], b) for b in sel]
+    res = scengine.replay(fxv, rd, "cachemodel", items, par=8, chunk=300)
+    dev, examples, conform, traces, events = {}, [], 0, 0, 0
+    for g in res:
+        if g["rc"] != 0 and not g["got"]:
+            if "panicked at" in g["stderr"] and v.panic_in_code_under_test(g["stderr"]):
+                keep = v.save_replay("c16", "cachemodel_panic.txt", g["stderr"])
+                viol.append({"what": "replayed CacheConc schedule: panic in the code under test: " + g["stderr"][-300:], "replay": keep, "key": "cacheconc panic"})
+                continue
+            raise v.ToolError("fxv conc --mode replay (cache) failed: " + g["stderr"][-400:])
+        lines = open(g["trace"]).read().splitlines()
+        bounds = [x["first_event"] for x in g["got"]] + [len(lines) + 1]
+        for j, ((p, b), got) in enumerate(zip(g["group"], g["got"])):
+            evs = [json.loads(x) for x in lines[bounds[j] - 1:bounds[j + 1] - 1]]
+            d = []
+            arr = [[h["t"] - 1, h["at"]] for h in b["h"] if h["e"] == "step"]
+            if got.get("stalled"):
+                d.append("stall")
+            if [list(a) for a in got["arrivals"]] != arr:
+                d.append("cf")
+            want = {}
+            for h in b["h"]:
+                if h["e"] == "res" and h["res"] in ("hit", "miss"):
+                    want.setdefault(h["t"], []).append(h["res"])
+            have = {}
+            for e in evs:
+                if e.get("op") == "get" and e.get("t"):
+                    have.setdefault(e["t"], []).append(e["res"])
+            if want != have:
+                d.append("res")
+            fin = [[x["k"], x["g"]] for x in b["fin"]["ents"]]
+            if evs and [[x["k"], x["g"]] for x in evs[-1]["ents"]] != fin:
+                d.append("final")
+            if d:
+                dev[",".join(d)] = dev.get(",".join(d), 0) + 1
+                if len(examples) < 4:
+                    examples.append({"program": b["p"], "deviation": d, "schedule": arr, "arrived": got.get("arrivals")})
+            else:
+                conform += 1
+        del g["group"]
+        # the real executions, judged by the property formulas
+        rt = v.run_tlc("TraceCache", "TraceCache.cfg", os.path.join(rd, "tlc_cm_%s" % os.path.basename(g["trace"])), workers=1,
+                       timeout=900, env_extra={"TRACE": g["trace"]}, depth_first=True, coverage=False, xmx="2g")
+        prop = None
+        if rt.violation:
+            m = re.search(r"(?:invariant|action property) (\w+)", rt.violation)
+            prop = m.group(1) if m else None
+        if prop in TRACE_PROPS:
+            idx, ev = _rejected_event(rt, lines)
+            keep = v.save_replay("c16", "cachemodel_" + os.path.basename(g["trace"]), open(g["trace"]).read())
+            viol.append({"what": "%s fails at event %s of a replayed CacheConc schedule: %s" % (prop, idx, ev), "replay": keep,
+                         "key": "cacheconc %s" % prop})
+        else:
+            v.tlc_ok(rt, "TraceCache(cache model replay)")
+            if rt.violation:
+                raise v.ToolError("TraceCache(cache model replay): trace not consumed (%s)" % rt.violation)
+        traces += 1
+        events += len(lines)
+    info.update({"replayed": len(items), "conforming": conform, "deviations": dev, "deviation_examples": examples,
+                 "traces": traces, "events": events})
+    return viol, info
